@@ -9,7 +9,7 @@ it returns the new position and the value, failure by exception is `Res.fail`.  
               raises anything but `Backtrack` (943-954, 999-1014).
   * `tags`  — `ctx.tags`, pushed by `StartTagName` (1170-1179), popped and compared by
               `EndTagName` (1182-1207).  Head of the list = top of the stack.
-`ctx.pos/errors/parser_stack/lines` only feed the error text and are not modelled; `indents`
+`ctx.pos/errors/parser_stack` only feed the error text and are not modelled (`ctx.lines` is: `lineOf`/`colOf`); `indents`
 (WithIndent / HangingString) is not modelled.
 
 Fuel: one unit per `process` call / loop iteration, i.e. fuel bounds the DEPTH of the call
@@ -24,7 +24,8 @@ Classes mirrored (line ranges of insights/parsr/__init__.py):
   AnyChar 365-372, Char 375-395, InSet 403-429, String 437-476, Literal 479-543, EOF 1045-1061
   (= `Prim`), Wrapper 546-557, Sequence 585-632, Choice 635-669, Many 672-726, Until 734-775,
   FollowedBy 778-803, NotFollowedBy 806-836, KeepLeft 839-863, KeepRight 866-889, Opt 892-921,
-  Map 924-954, Lift 962-1014, Forward 1017-1042, StartTagName/EndTagName 1170-1207,
+  Map 924-954, Lift 962-1014, Forward 1017-1042, StartTagName/EndTagName 1170-1207, PosMarker 572-582 (`mark`,
+  with Context.line / Context.col 187-194 = `lineOf` / `colOf`), skip_none 1226-1227 (`Fn.skipNone`),
   Parser.__call__ 321-359 (`call`), Parser.sep_by/_accumulate 224-239 (`Fn.accumulate`, `sepBy`).
 -/
 namespace IV.Peg
@@ -103,6 +104,7 @@ inductive Fn where
   | mkRegex                   -- taglang.Regex
   | negate                    -- taglang.negate
   | oper                      -- taglang.oper
+  | skipNone                  -- parsr.skip_none: [i for i in x if i is not None]
 deriving Repr
 
 def allStr : List Val → Option Str
@@ -159,6 +161,11 @@ def operLoop : List Val → Val → Option Val
       operLoop xs l2
     | _ => none               -- not unpackable, or `op in ",|"` with a non-str op: TypeError
 
+/-- `x is not None` -/
+def Val.notNone : Val → Bool
+  | .none => false
+  | _ => true
+
 /-- a mapped function receives the child's value; a lifted function receives `list args` -/
 def Fn.apply : Fn → Val → FnRes
   | .ident, v => .ok v
@@ -196,6 +203,9 @@ def Fn.apply : Fn → Val → FnRes
       | some (left, .list rest) => (match operLoop rest left with | some r => .ok r | none => .raise)
       | some (left, .str []) => .ok left
       | _ => .raise
+  | .skipNone, .list vs => .ok (.list (vs.filter Val.notNone))
+  | .skipNone, .str s => .ok (.list (s.map fun c => .str [c]))     -- iterating a str gives its characters
+  | .skipNone, _ => .raise                                         -- None / int are not iterable (dict: not modelled)
 
 def lowerAscii (c : Char) : Char :=
   if 'A' ≤ c ∧ c ≤ 'Z' then Char.ofNat (c.toNat + 32) else c
@@ -251,6 +261,41 @@ def Prim.run (inp : Str) (pos : Nat) : Prim → Option (Nat × Val)
       | some _ => none
       | none => some (pos, .none)
 
+/-! ### `Context.line` / `Context.col` (187-194): what PosMarker (572-582) reports -/
+
+/-- `Context.lines = [i for i, x in enumerate(lines) if x == "\n"]`, enumeration starting at `i` -/
+def newlineIdx : Str → Nat → List Nat
+  | [], _ => []
+  | c :: cs, i => if c = '\n' then i :: newlineIdx cs (i + 1) else newlineIdx cs (i + 1)
+
+/-- `bisect.bisect_left(a, x)` on a sorted list: the number of leading elements `< x` -/
+def bisectLeft : List Nat → Nat → Nat
+  | [], _ => 0
+  | a :: as, x => if a < x then 1 + bisectLeft as x else 0
+
+/-- `ctx.line(pos)` (0-based) -/
+def lineOf (inp : Str) (pos : Nat) : Nat := bisectLeft (newlineIdx inp 0) pos
+
+/-- the body of `ctx.col(pos)` on a list of newline offsets: `pos` on the first line, else the distance to the
+last newline before `pos` -/
+def colIn (lines : List Nat) (pos : Nat) : Nat :=
+  let p := bisectLeft lines pos
+  if p = 0 then pos else pos - lines.getD (p - 1) 0 - 1
+
+/-- `ctx.col(pos)` (0-based) -/
+def colOf (inp : Str) (pos : Nat) : Nat := colIn (newlineIdx inp 0) pos
+
+/-- `Mark(lineno, col, value)` as PosMarker builds it: both 1-based, taken at the START position -/
+def markVal (inp : Str) (pos : Nat) (v : Val) : Val :=
+  .obj "Mark".toList [.int (lineOf inp pos + 1), .int (colOf inp pos + 1), v]
+
+/-- the textbook way to number lines and columns: read the text before the position left to right,
+a newline starts the next line at column 0, any other character advances the column -/
+def lcStep (lc : Nat × Nat) (c : Char) : Nat × Nat :=
+  if c = '\n' then (lc.1 + 1, 0) else (lc.1, lc.2 + 1)
+
+def lineColSpec (inp : Str) (pos : Nat) : Nat × Nat := (inp.take pos).foldl lcStep (0, 0)
+
 inductive Term where
   | prim (p : Prim)
   | seq (ts : List Term)
@@ -268,6 +313,7 @@ inductive Term where
   | ref (i : Nat)                       -- Forward: index into the rule table
   | startTag (t : Term)
   | endTag (t : Term) (ignoreCase : Bool)
+  | mark (t : Term)                     -- PosMarker
 deriving Repr, Inhabited
 
 /-- the part of `Context` a result can depend on -/
@@ -390,6 +436,10 @@ def run (rules : List Term) (inp : Str) : Nat → Term → Nat → St → Res ×
             if tagsAgree ic v e then (.ok p v, { σ1 with tags := rest })
             else (.fail, { σ1 with tags := rest }))
       | r => r
+    | .mark t =>                            -- PosMarker: line and column of the position it STARTS at
+      match run rules inp fuel t pos σ with
+      | (.ok p v, σ1) => (.ok p (markVal inp pos v), σ1)
+      | r => r
 /-- the `for p in self.children` loop of Sequence / Lift -/
 def runSeq (rules : List Term) (inp : Str) : Nat → List Term → Nat → St → LRes × St
   | 0, _, _, σ => (.diverge, σ)
@@ -476,6 +526,7 @@ def Term.tagFree : Term → Bool
   | .ref _ => true
   | .startTag _ => false
   | .endTag _ _ => false
+  | .mark t => t.tagFree
 def Term.tagFreeL : List Term → Bool
   | [] => true
   | t :: ts => t.tagFree && Term.tagFreeL ts
@@ -542,6 +593,7 @@ def Term.consuming : Term → Bool
   | .ref _ => false
   | .startTag t => t.consuming
   | .endTag t _ => t.consuming
+  | .mark t => t.consuming
 def Term.consumingAny : List Term → Bool
   | [] => false
   | t :: ts => t.consuming || Term.consumingAny ts
@@ -571,6 +623,7 @@ def Term.wf : Bool → Term → Bool
   | g, .ref _ => g
   | g, .startTag t => t.wf g
   | g, .endTag t _ => t.wf g
+  | g, .mark t => t.wf g
 def Term.wfSeq : Bool → List Term → Bool
   | _, [] => true
   | g, t :: ts => t.wf g && Term.wfSeq (g || t.consuming) ts
@@ -600,6 +653,7 @@ def Term.size : Term → Nat
   | .ref _ => 1
   | .startTag t => 1 + t.size
   | .endTag t _ => 1 + t.size
+  | .mark t => 1 + t.size
 def Term.sizeL : List Term → Nat
   | [] => 0
   | t :: ts => 1 + t.size + Term.sizeL ts
@@ -624,6 +678,7 @@ def Term.cost (k n : Nat) : Term → Nat
   | .ref _ => 1 + k
   | .startTag t => 1 + t.cost k n
   | .endTag t _ => 1 + t.cost k n
+  | .mark t => 1 + t.cost k n
 def Term.costL (k n : Nat) : List Term → Nat
   | [] => 1
   | t :: ts => 1 + t.cost k n + Term.costL k n ts
